@@ -977,8 +977,14 @@ func (p *Parser) parseQualifiedName() (string, error) {
 	}
 	name := p.currentToken.Literal
 	p.advance()
+	if !p.isType(models.TokenTypePeriod) {
+		return name, nil
+	}
 
-	// Check for schema.table or db.schema.table
+	// Check for schema.table or db.schema.table; the parts are collected in
+	// one builder so that a long dotted name costs its length, not its square.
+	var sb strings.Builder
+	sb.WriteString(name)
 	for p.isType(models.TokenTypePeriod) {
 		p.advance() // Consume .
 		// After a dot only a name part can follow, so a keyword there is a
@@ -986,11 +992,12 @@ func (p *Parser) parseQualifiedName() (string, error) {
 		if !p.isIdentifier() && !p.isNonReservedKeyword() && !p.isBareKeywordWord() {
 			return "", p.expectedError("identifier after .")
 		}
-		name = name + "." + p.currentToken.Literal
+		sb.WriteByte('.')
+		sb.WriteString(p.currentToken.Literal)
 		p.advance()
 	}
 
-	return name, nil
+	return sb.String(), nil
 }
 
 // Accepts IDENT or non-reserved keywords that can be used as table names
